@@ -20,7 +20,7 @@ var commonAssume = []string{
 }
 
 func allChecks() []*CheckDef {
-	return []*CheckDef{checkC02(), checkC03(), checkC12(), checkC13(), checkC14()}
+	return []*CheckDef{checkC02(), checkC03(), checkC12(), checkC13(), checkC14(), checkC09()}
 }
 
 func checkC03() *CheckDef {
@@ -209,6 +209,34 @@ func checkC14() *CheckDef {
 			return map[string]interface{}{"wire_values": p, "transitivity_triples": "same-shape triples with independent leaves, one node fewer than pairs", "second_value": "same shape with independent leaves (first value <= budget nodes), and independent shapes (both <= budget2 nodes)",
 				"map_iteration": "all orders", "preconditions": "no NaN; sets and map keys duplicate-free; struct ids distinct (as the property states)",
 				"outside": "generated Equals methods (generated-code pipeline not built yet); larger containers"}
+		},
+		Assume: commonAssume,
+	}
+}
+
+const compilePkg = "go.uber.org/thriftrw/compile"
+
+var pkgCompile = PkgDef{Path: compilePkg, Dir: "compile", Name: "compile", Files: []string{"compile/zz_h09.go"}}
+
+func checkC09() *CheckDef {
+	return &CheckDef{
+		ID:   "C09",
+		Pkgs: []PkgDef{pkgCompile},
+		Harnesses: func(tier string) []*sym.HarnessConfig {
+			var out []*sym.HarnessConfig
+			for part := 0; part <= 2; part++ {
+				out = append(out, &sym.HarnessConfig{Name: "h09", Pkg: compilePkg, Params: map[string]int{"part": part}, Budget: 3000000})
+			}
+			out = append(out, &sym.HarnessConfig{Name: "h09_witness", Pkg: compilePkg, Params: map[string]int{"part": 0}, ExpectViolation: true})
+			return out
+		},
+		Bounds: func(tier string) map[string]interface{} {
+			return map[string]interface{}{
+				"program_shape": "one struct with 2 fields / one enum with 3 items / 5 integer constants (i8,i16,i32,i64,enum) + one i16 field default",
+				"numbers":       "every field id, enum value (explicit or implicit) and constant is a free 64-bit integer; strict and non-strict mode symbolic",
+				"map_iteration": "insertion order (order is not this property's subject)",
+				"outside":       "lexer int64 parsing and hex forms; programs of other shapes; self-referential constants/services",
+			}
 		},
 		Assume: commonAssume,
 	}
